@@ -23,8 +23,10 @@ RULE = ('one shard per (block, driver placement, enable source, #domains) design
 ASSUMPTIONS = ['the ungated twin (same construction code, no clockDriver assignment) defines "behaves exactly like ungated blocks"; '
                'the blocks\' own step function is checked separately in C09',
                'enable wires are 1 bit wide except in the "wide" designs (2-bit enable: any non-zero value enables)']
-BOUNDS = {'quick': 'blocks Reg(w=2), Counter(w=2), TReg, DelayLine(2), ClockSyncFSM; placements self/parent/grand/nested; enable from input / '
-                   'from a register inside the gated domain / from a register in another domain; one or two gated domains',
+BOUNDS = {'quick': 'blocks Reg(w=2), Counter(w=2), TReg, DelayLine(2), ClockSyncFSM; placements self/parent/grand/nested/nested with derived base/'
+                   'self with a clockable sibling under the same parent (both creation orders)/the system driver itself; enable from input / '
+                   'from a register inside the gated domain / from a register in another domain / from combinational cells inside the gated '
+                   'hierarchy / 2 bits wide; one or two gated domains',
           'thorough': 'same plus three-domain designs for the five small blocks, and width-2 DelayLine, Stack, SynchronousMemory under gating (one and two domains)'}
 
 BLOCKS = ['Reg', 'Counter', 'TReg', 'DelayLine', 'ClockSyncFSM']
@@ -39,6 +41,16 @@ def shards(tier):
         for p in PLACES:
             for e in ENS:
                 out.append({'block': b, 'place': p, 'en': e, 'domains': 1})
+        # the gated driver sits on a leaf cell that has a clockable sibling under the same parent (sibling created before / after it)
+        for p in ('selfsib_a', 'selfsib_b'):
+            out.append({'block': b, 'place': p, 'en': 'input', 'domains': 1})
+            out.append({'block': b, 'place': p, 'en': 'input', 'domains': 2})
+        # the system's own (top level) driver is the gated one and there is no other domain
+        for e in ('input', 'wide'):
+            out.append({'block': b, 'place': 'top', 'en': e, 'domains': 1})
+        # the enable is computed by combinational cells that live inside the hierarchy they gate
+        for p in ('parent', 'grand'):
+            out.append({'block': b, 'place': p, 'en': 'inner', 'domains': 1})
         for e in ('input', 'other'):
             out.append({'block': b, 'place': 'parent', 'en': e, 'domains': 2})
         # two distinct ClockDriver objects that carry the same name (a reusable self-gating block instantiated twice)
@@ -112,19 +124,27 @@ def build(d, gated):
         tag = 'D%d' % k
         g2 = Logic(hw, tag + '_g2')
         g1 = Logic(g2, 'g1')
-        dut, q = inst_block(g1, 'dut', d['block'], free, tag + 'dut')
-        sib, qs = inst_block(g2, 'sib', d['block'], free, tag + 'sib')
+        if d['place'] == 'selfsib_a':
+            sib, qs = inst_block(g1, 'sib', d['block'], free, tag + 'sib')
+            dut, q = inst_block(g1, 'dut', d['block'], free, tag + 'dut')
+        elif d['place'] == 'selfsib_b':
+            dut, q = inst_block(g1, 'dut', d['block'], free, tag + 'dut')
+            sib, qs = inst_block(g1, 'sib', d['block'], free, tag + 'sib')
+        else:
+            dut, q = inst_block(g1, 'dut', d['block'], free, tag + 'dut')
+            sib, qs = inst_block(g2, 'sib', d['block'], free, tag + 'sib')
         # enable source
         en = hw.wire(tag + '_en', 2 if d['en'] == 'wide' else 1)
         if d['en'] in ('input', 'wide'):
             free.append(en)
-        elif d['en'] == 'self':
-            # enable = (bit 0 of the gated block's own output) OR kick
+        elif d['en'] in ('self', 'inner'):
+            # enable = (bit 0 of the gated block's own output) OR kick; 'inner': the two cells live inside the gated hierarchy
             kick = hw.wire(tag + '_kick')
             free.append(kick)
             b0 = hw.wire(tag + '_b0')
-            py4hw.Bit(hw, tag + '_b0', q, 0, b0)
-            py4hw.Or2(hw, tag + '_or', b0, kick, en)
+            cells = hw if d['en'] == 'self' else {'parent': g1, 'grand': g2}[d['place']]
+            py4hw.Bit(cells, tag + '_b0', q, 0, b0)
+            py4hw.Or2(cells, tag + '_or', b0, kick, en)
         else:
             # enable = register in the base domain (or in the previous gated domain for k > 0)
             x = hw.wire(tag + '_enx')
@@ -132,7 +152,8 @@ def build(d, gated):
             holder = hw if k == 0 else c.prev_g1
             py4hw.Reg(holder, tag + '_enreg', x, en)
         drv = py4hw.ClockDriver('gclk' if d.get('samename') else tag + '_clk', base=hw.clockDriver, enable=en)
-        target = {'self': dut, 'parent': g1, 'grand': g2, 'nested': dut, 'nestedbase': dut}[d['place']]
+        target = {'self': dut, 'parent': g1, 'grand': g2, 'nested': dut, 'nestedbase': dut,
+                  'selfsib_a': dut, 'selfsib_b': dut, 'top': hw}[d['place']]
         if gated:
             if d.get('late'):
                 c.late = getattr(c, 'late', []) + [(target, drv)]
